@@ -22,6 +22,7 @@ import (
 	"errors"
 	"fmt"
 	"go/ast"
+	"go/build/constraint"
 	"go/format"
 	"go/printer"
 	"go/token"
@@ -123,7 +124,7 @@ func Generate(ctx context.Context, wd string, env []string, patterns []string, o
 			continue
 		}
 		if len(opts.Header) > 0 {
-			goSrc = append(opts.Header, goSrc...)
+			goSrc = append(append([]byte(nil), opts.Header...), goSrc...)
 		}
 		fmtSrc, err := format.Source(goSrc)
 		if err != nil {
@@ -132,10 +133,49 @@ func Generate(ctx context.Context, wd string, env []string, patterns []string, o
 			generated[i].Errs = append(generated[i].Errs, err)
 		} else {
 			goSrc = fmtSrc
+			if want, got := intendedConstraint(opts.Header), constraintLine(goSrc); want != "" && got != want {
+				// gofmt gathers every line that reads as a build constraint,
+				// wherever it stands, into the one at the top of the file.
+				generated[i].Errs = append(generated[i].Errs, fmt.Errorf("the generated file would be built under %q instead of %q: a comment copied into it (from the header file, or the doc comment of an injector or of a declaration in an injector file) reads as a build constraint", got, want))
+				continue
+			}
 		}
 		generated[i].Content = goSrc
 	}
 	return generated, nil
+}
+
+// constraintLine returns the //go:build line of a formatted source file, or
+// "" if it has none.
+func constraintLine(src []byte) string {
+	for _, line := range strings.Split(string(src), "\n") {
+		if strings.HasPrefix(line, "//go:build ") {
+			return line
+		}
+		if strings.HasPrefix(line, "package ") {
+			break
+		}
+	}
+	return ""
+}
+
+// intendedConstraint returns the //go:build line a generated file is meant to
+// have: "!wireinject", and-ed to the constraint of the header if it has one.
+func intendedConstraint(header []byte) string {
+	notInject := &constraint.NotExpr{X: &constraint.TagExpr{Tag: "wireinject"}}
+	fmtSrc, err := format.Source(append(append([]byte(nil), header...), "\npackage p\n"...))
+	if err != nil {
+		return ""
+	}
+	line := constraintLine(fmtSrc)
+	if line == "" {
+		return "//go:build " + notInject.String()
+	}
+	own, err := constraint.Parse(line)
+	if err != nil {
+		return ""
+	}
+	return "//go:build " + (&constraint.AndExpr{X: own, Y: notInject}).String()
 }
 
 func detectOutputDir(paths []string) (string, error) {
